@@ -232,9 +232,13 @@ func runGCProcess(lj, fresh *gjob) []int64 {
 		}
 	}
 	client.ClearActions()
-	lo := time.Since(base).Nanoseconds()
+	// the window of the call on the WALL clock, which is what the code subtracts (the job's times carry
+	// no monotonic reading); time.Since would use the monotonic one, and the two readings of a
+	// time.Now() can be tens of microseconds apart under load.  1 ms of slack against clock steps.
+	const slack = int64(time.Millisecond)
+	lo := time.Now().UnixNano() - base.UnixNano() - slack
 	err := v.ProcessJob(ns + "/j")
-	hi := time.Since(base).Nanoseconds()
+	hi := time.Now().UnixNano() - base.UnixNano() + slack
 	var del *int64
 	ndel := 0
 	for _, a := range client.Actions() {
@@ -664,6 +668,7 @@ type server struct {
 	viaGet     []int64 // per delete: 1 if the controller had just fetched that job
 	lastGet    string
 	emptyNsGet bool
+	conflicts  [][2]int64 // Create calls answered AlreadyExists: (name, annotated schedule time)
 }
 
 var errInjected = errors.New("injected create failure")
@@ -706,6 +711,11 @@ func (s *server) CreateJobClient(_ vcclientset.Interface, namespace string, job 
 		return nil, errInjected
 	}
 	if _, ok := s.jobs[job.Name]; ok {
+		at, err := time.Parse(time.RFC3339, job.Annotations[batchv1.CronJobScheduledTimestampAnnotation])
+		if err != nil {
+			panic("job to create carries no scheduled-timestamp annotation")
+		}
+		s.conflicts = append(s.conflicts, [2]int64{parseName(job.Name), at.UnixNano()})
 		return nil, apierrors.NewAlreadyExists(gr, job.Name)
 	}
 	o := job.DeepCopy()
@@ -796,12 +806,18 @@ type obs struct {
 	activeAfter          []mref
 	created              int64
 	deadline             *int64
+	conflicts            [][2]int64
+	lenient              bool
+	err                  int64
+	lastAfter            *int64
+	upd                  bool
 }
 
 var lastHist struct {
 	st      schedTok
 	obs     []obs
 	created []int64
+	stale   bool // the history contains a reconcile on an older status or with a lost status write
 }
 
 func refsOf(st *batchv1.CronJobStatus) []mref {
@@ -853,17 +869,7 @@ func runHistory(in []int64) []int64 {
 	fail := r.optZ()
 	tzok := r.b()
 	// status
-	last := r.optZ()
-	na := r.n()
-	active := []mref{}
-	for i := 0; i < na; i++ {
-		active = append(active, mref{r.z(), r.z()})
-	}
-	var lastSucc **int64
-	if r.z() != 0 {
-		p := r.optZ()
-		lastSucc = &p
-	}
+	st0 := r.status()
 	nj := r.n()
 	jobs := []mjob{}
 	for i := 0; i < nj; i++ {
@@ -893,23 +899,73 @@ func runHistory(in []int64) []int64 {
 	}
 	cj.Spec.SuccessfulJobsHistoryLimit = lim(succ)
 	cj.Spec.FailedJobsHistoryLimit = lim(fail)
-	if last != nil {
-		cj.Status.LastScheduleTime = &metav1.Time{Time: tm(*last)}
-	}
-	for _, a := range active {
-		cj.Status.Active = append(cj.Status.Active, refFor(a))
-	}
-	if lastSucc != nil {
-		t := mt(*lastSucc)
-		cj.Status.LastSuccessfulTime = &t
-	}
+	cj.Status = st0
 	srv := &server{jobs: map[string]*batchv1.Job{}, nextUID: nextUID, lenient: lenient, cj: cj}
 	for _, j := range jobs {
 		srv.jobs[jobName(j.name)] = j.build(cj)
 	}
 	ctl := cjc.NewVerifController(srv, srv, func() time.Time { return tm(srv.now) })
 	outs := [][]int64{}
-	lastHist.st, lastHist.obs, lastHist.created = st, nil, nil
+	lastHist.st, lastHist.obs, lastHist.created, lastHist.stale = st, nil, nil, false
+	// one reconcile: on the persisted status (stIn == nil) or on a given older one; the
+	// write-back follows sync(): only without error, when asked for - and when it is not lost
+	reconcile := func(now int64, fc bool, stIn *batchv1.CronJobStatus, persistOK bool) {
+		srv.now, srv.failCreate = now, fc
+		srv.creates, srv.deletes, srv.viaGet, srv.lastGet, srv.emptyNsGet, srv.conflicts = nil, nil, nil, "", false, nil
+		// the lister shows the API server's jobs
+		items := []interface{}{}
+		for _, o := range srv.jobs {
+			items = append(items, o.DeepCopy())
+		}
+		if err := ctl.JobIndexer().Replace(items, ""); err != nil {
+			panic(err)
+		}
+		work := srv.cj.DeepCopy()
+		if stIn != nil {
+			work.Status = *stIn.DeepCopy()
+		}
+		mine, err := ctl.GetJobsByCronJob(work)
+		if err != nil {
+			panic(err)
+		}
+		sort.Slice(mine, func(i, j int) bool { return parseName(mine[i].Name) < parseName(mine[j].Name) })
+		o := obs{spec: encSpec(srv.cj), active: refsOf(&work.Status), jobs: srv.sorted(), now: now,
+			created: created, deadline: srv.cj.Spec.StartingDeadlineSeconds, lenient: lenient}
+		if work.Status.LastScheduleTime != nil {
+			o.last = ptr.To(work.Status.LastScheduleTime.UnixNano())
+		}
+		rq, upd, serr := ctl.SyncCronJob(work, mine)
+		ec := errClass(serr)
+		if ec == 2 && srv.emptyNsGet {
+			ec = 4 // the conflicting job could not be fetched
+		}
+		if ec == 99 {
+			panic("unclassified error: " + serr.Error())
+		}
+		if serr != nil && rq != nil {
+			panic("error together with a requeue")
+		}
+		if serr == nil && upd && persistOK {
+			srv.cj.Status = *work.Status.DeepCopy()
+		}
+		var rqp *int64
+		if rq != nil {
+			rqp = ptr.To(rq.Nanoseconds())
+		}
+		cr := []int64{int64(len(srv.creates))}
+		for _, c := range srv.creates {
+			cr = append(cr, c[0], c[1])
+			lastHist.created = append(lastHist.created, c[1])
+		}
+		outs = append(outs, cat(tag(0), tag(1), eOpt(rqp), tag(2), []int64{vh.B(upd)}, tag(3), []int64{ec},
+			tag(4), cr, tag(5), encList(srv.deletes), tag(6), encStatus(&work.Status)))
+		o.creates, o.deletes, o.viaGet, o.activeAfter = srv.creates, srv.deletes, srv.viaGet, refsOf(&work.Status)
+		o.conflicts, o.err, o.upd = srv.conflicts, ec, upd
+		if work.Status.LastScheduleTime != nil {
+			o.lastAfter = ptr.To(work.Status.LastScheduleTime.UnixNano())
+		}
+		lastHist.obs = append(lastHist.obs, o)
+	}
 	for k := 0; k < nops; k++ {
 		switch r.z() {
 		case 0:
@@ -918,55 +974,34 @@ func runHistory(in []int64) []int64 {
 			if r.bad {
 				return badInput
 			}
-			srv.now, srv.failCreate = now, fc
-			srv.creates, srv.deletes, srv.viaGet, srv.lastGet, srv.emptyNsGet = nil, nil, nil, "", false
-			// the lister shows the API server's jobs
-			items := []interface{}{}
-			for _, o := range srv.jobs {
-				items = append(items, o.DeepCopy())
+			reconcile(now, fc, nil, true)
+		case 6:
+			stIn := r.status()
+			ok := r.b()
+			now := r.z()
+			fc := r.b()
+			if r.bad {
+				return badInput
 			}
-			if err := ctl.JobIndexer().Replace(items, ""); err != nil {
-				panic(err)
+			lastHist.stale = true
+			reconcile(now, fc, &stIn, ok)
+		case 9:
+			now := r.z()
+			fc := r.b()
+			if r.bad {
+				return badInput
 			}
-			work := srv.cj.DeepCopy()
-			mine, err := ctl.GetJobsByCronJob(work)
-			if err != nil {
-				panic(err)
+			lastHist.stale = true
+			reconcile(now, fc, nil, false)
+		case 7:
+			d := r.optZ()
+			if d != nil && *d < 0 {
+				panic("negative starting deadline")
 			}
-			sort.Slice(mine, func(i, j int) bool { return parseName(mine[i].Name) < parseName(mine[j].Name) })
-			o := obs{spec: encSpec(srv.cj), active: refsOf(&srv.cj.Status), jobs: srv.sorted(), now: now,
-				created: created, deadline: srv.cj.Spec.StartingDeadlineSeconds}
-			if srv.cj.Status.LastScheduleTime != nil {
-				o.last = ptr.To(srv.cj.Status.LastScheduleTime.UnixNano())
-			}
-			rq, upd, serr := ctl.SyncCronJob(work, mine)
-			ec := errClass(serr)
-			if ec == 2 && srv.emptyNsGet {
-				ec = 4 // the conflicting job could not be fetched
-			}
-			if ec == 99 {
-				panic("unclassified error: " + serr.Error())
-			}
-			if serr != nil && rq != nil {
-				panic("error together with a requeue")
-			}
-			// sync(): the status is written back only without error and when asked for
-			if serr == nil && upd {
-				srv.cj.Status = *work.Status.DeepCopy()
-			}
-			var rqp *int64
-			if rq != nil {
-				rqp = ptr.To(rq.Nanoseconds())
-			}
-			cr := []int64{int64(len(srv.creates))}
-			for _, c := range srv.creates {
-				cr = append(cr, c[0], c[1])
-				lastHist.created = append(lastHist.created, c[1])
-			}
-			outs = append(outs, cat(tag(0), tag(1), eOpt(rqp), tag(2), []int64{vh.B(upd)}, tag(3), []int64{ec},
-				tag(4), cr, tag(5), encList(srv.deletes), tag(6), encStatus(&work.Status)))
-			o.creates, o.deletes, o.viaGet, o.activeAfter = srv.creates, srv.deletes, srv.viaGet, refsOf(&work.Status)
-			lastHist.obs = append(lastHist.obs, o)
+			srv.cj.Spec.StartingDeadlineSeconds = d
+		case 8:
+			srv.cj.Spec.SuccessfulJobsHistoryLimit = lim(r.optZ())
+			srv.cj.Spec.FailedJobsHistoryLimit = lim(r.optZ())
 		case 1:
 			name, ph, at := r.z(), r.enum(3), r.optZ()
 			if o, ok := srv.jobs[jobName(name)]; ok {
@@ -1011,6 +1046,22 @@ func runHistory(in []int64) []int64 {
 	out = append(out, tag(9)...)
 	out = append(out, srv.nextUID)
 	return out
+}
+
+// status tokens (mirrors dStatus of Entry.v)
+func (r *rd) status() (st batchv1.CronJobStatus) {
+	if last := r.optZ(); last != nil {
+		st.LastScheduleTime = &metav1.Time{Time: tm(*last)}
+	}
+	na := r.n()
+	for i := 0; i < na; i++ {
+		st.Active = append(st.Active, refFor(mref{r.z(), r.z()}))
+	}
+	if r.z() != 0 {
+		t := mt(r.optZ())
+		st.LastSuccessfulTime = &t
+	}
+	return
 }
 
 func refFor(a mref) (o corev1.ObjectReference) {
@@ -1206,9 +1257,23 @@ func laws(sel int, in, got []int64, law func(lsel int, lin []int64, sig string))
 			for _, a := range o.activeAfter {
 				l = append(l, a.name, a.uid)
 			}
+			l = append(l, int64(len(o.conflicts)))
+			for _, c := range o.conflicts {
+				l = append(l, c[0], c[1])
+			}
+			l = append(l, vh.B(o.lenient), o.err)
+			l = append(l, eOpt(o.lastAfter)...)
+			l = append(l, vh.B(o.upd))
 			law(121, l, "")
 		}
-		law(120, encList(lastHist.created), "")
+		// "each scheduled time starts at most one job" over the whole history - at full strength also
+		// when a reconcile ran on an older status or lost its status write; a failure in that class
+		// is the known finding C18/lost-status-write
+		sig := ""
+		if lastHist.stale {
+			sig = "C18/lost-status-write"
+		}
+		law(120, encList(lastHist.created), sig)
 	}
 }
 
